@@ -86,10 +86,33 @@ so that `simp` does not insist on the canonical one: rewriting `val a ≤ val b`
 attribute [optsimp] Bool.and_eq_true Bool.or_eq_true Bool.not_eq_true' Bool.not_eq_true Bool.true_eq_false
   Bool.false_eq_true if_true if_false and_true true_and Bool.true_and Bool.and_true Bool.false_and Bool.and_false
   Bool.true_or Bool.or_true Bool.false_or Bool.or_false Bool.not_true Bool.not_false
+/-- every comparison with NaN is false -/
+@[optsimp] theorem nan_lt (x : Opt K sq) : ((nan : Opt K sq) < x) = False := by cases x <;> exact id rfl
+@[optsimp] theorem lt_nan (x : Opt K sq) : (x < (nan : Opt K sq)) = False := by cases x <;> exact id rfl
+@[optsimp] theorem nan_le (x : Opt K sq) : ((nan : Opt K sq) ≤ x) = False := by cases x <;> exact id rfl
+@[optsimp] theorem le_nan (x : Opt K sq) : (x ≤ (nan : Opt K sq)) = False := by cases x <;> exact id rfl
+/-- NaN propagates through the arithmetic operations -/
+@[optsimp] theorem nan_add (x : Opt K sq) : (nan + x : Opt K sq) = nan := by cases x <;> exact id rfl
+@[optsimp] theorem add_nan (x : Opt K sq) : (x + nan : Opt K sq) = nan := by cases x <;> exact id rfl
+@[optsimp] theorem nan_sub (x : Opt K sq) : (nan - x : Opt K sq) = nan := by cases x <;> exact id rfl
+@[optsimp] theorem sub_nan (x : Opt K sq) : (x - nan : Opt K sq) = nan := by cases x <;> exact id rfl
+@[optsimp] theorem nan_mul (x : Opt K sq) : (nan * x : Opt K sq) = nan := by cases x <;> exact id rfl
+@[optsimp] theorem mul_nan (x : Opt K sq) : (x * nan : Opt K sq) = nan := by cases x <;> exact id rfl
+@[optsimp] theorem nan_div (x : Opt K sq) : (nan / x : Opt K sq) = nan := by cases x <;> exact id rfl
+@[optsimp] theorem div_nan (x : Opt K sq) : (x / nan : Opt K sq) = nan := by cases x <;> exact id rfl
+@[optsimp] theorem neg_nan : (-(nan : Opt K sq)) = nan := id rfl
 /-- division: NaN exactly when the divisor is zero -/
 @[optsimp] theorem val_div (a b : K) : (val a / val b : Opt K sq) = if b = 0 then nan else val (a / b) := id rfl
 theorem val_div_ne (a b : K) (h : b ≠ 0) : (val a / val b : Opt K sq) = val (a / b) := by
   rw [val_div, if_neg h]
+/-- the sign test `1 / x < 0` (reads the sign bit of a zero at `Float`): `1/0 = NaN` compares false, as `1/0 = 0` does in a field -/
+@[optsimp] theorem val_one_div_lt_zero (x : K) :
+    ((val 1 / val x : Opt K sq) < val 0) = (letI := fieldNum K sq; (1 : K) / x < 0) := by
+  by_cases h : x = 0
+  · subst h
+    have e : (val 1 / val 0 : Opt K sq) = nan := by rw [val_div, if_pos rfl]
+    rw [e, nan_lt]; simp
+  · rw [val_div_ne _ _ h, val_lt]
 /-- square root: NaN exactly when the argument is negative -/
 @[optsimp] theorem val_sqrt (a : K) : (Num.sqrt (val a) : Opt K sq) = if a < 0 then nan else val (sq a) := id rfl
 theorem val_sqrt_nonneg (a : K) (h : 0 ≤ a) : (Num.sqrt (val a) : Opt K sq) = val (sq a) := by
